@@ -1,4 +1,5 @@
 import FcpProps.C01
 import FcpProps.C02
 import FcpProps.C04
+import FcpProps.C09
 import FcpProps.C16
